@@ -23,8 +23,8 @@ Definition rng_graph : list fn := [
      fn_body := [SCall "lib:np.random.default_rng" ASeeded; SCall "lib:default_rng" ASeeded] |};
   {| fn_name := "DerivingRNG.__str__"; fn_takes := true; fn_primitive := false;
      fn_body := [] |};
-  {| fn_name := "derivable_rng"; fn_takes := false; fn_primitive := true;
-     fn_body := [SGlobal "SeedSequence()"] |};
+  {| fn_name := "derivable_rng"; fn_takes := true; fn_primitive := true;
+     fn_body := [SCall "DerivingRNG.__init__" AUnseeded; SGlobal "SeedSequence()"; SCall "DerivingRNG.__init__" ASeeded; SCall "FixedRNG.__init__" ASeeded; SCall "lib:default_rng" ASeeded] |};
   {| fn_name := "TrainingOptions.random_generator"; fn_takes := true; fn_primitive := true;
      fn_body := [SCall "random_generator" ASeeded] |};
   {| fn_name := "IterativeTraining.train"; fn_takes := true; fn_primitive := false;
@@ -84,7 +84,7 @@ Definition rng_graph : list fn := [
   {| fn_name := "FlexMFScorerBase.training_loop"; fn_takes := true; fn_primitive := false;
      fn_body := [SCall "FlexMFScorerBase.prepare_context" ASeeded; SCall "prepare_data" ASeeded; SCall "create_model" ASeeded; SCall "FlexMFScorerBase._training_loop_impl" ASeeded] |};
   {| fn_name := "FlexMFScorerBase.prepare_context"; fn_takes := true; fn_primitive := false;
-     fn_body := [SCall "TrainingOptions.random_generator" ASeeded; SDraw] |};
+     fn_body := [SCall "TrainingOptions.random_generator" ASeeded; SDraw; SCall "lib:FlexMFTrainingContext" ASeeded] |};
   {| fn_name := "FlexMFScorerBase.prepare_data"; fn_takes := true; fn_primitive := false;
      fn_body := [] |};
   {| fn_name := "FlexMFScorerBase.create_model"; fn_takes := true; fn_primitive := false;
